@@ -115,25 +115,30 @@ Definition check_case (fms : bool) (pkgname : string) (imp : pkg_import) (ops : 
    directories of its __path__ are scanned in the iteration order of a Python
    set, which is not specified: the harness lists the __path__ (repetitions
    included) once for every order of its distinct directories, and the
-   observation has to agree with the model for one of them.  Every other import
-   outcome has one alternative.  The clause reported is that of the first. *)
-Definition check_case_any (fms : bool) (pkgname : string) (imps : list pkg_import) (ops : list op) (o : obs) : nat :=
-  if existsb (fun imp => Nat.eqb (check_case fms pkgname imp ops o) 0) imps then 0
-  else match imps with
+   observation has to agree with the model for one of them.  Each alternative
+   carries its own copy of the observation: when a module name has a file in
+   several directories, the classes of that ONE module are identified by the
+   file the selector meets first under this order (the model's [file]); a class
+   of a shadowed file that got constructed all the same keeps an identity the
+   model never produces.  Every other import outcome has one alternative.  The
+   clause reported is that of the first. *)
+Definition check_case_any (fms : bool) (pkgname : string) (alts : list (pkg_import * obs)) (ops : list op) : nat :=
+  if existsb (fun a => Nat.eqb (check_case fms pkgname (fst a) ops (snd a)) 0) alts then 0
+  else match alts with
        | [] => 9
-       | imp :: _ => check_case fms pkgname imp ops o
+       | a :: _ => check_case fms pkgname (fst a) ops (snd a)
        end.
 
-Definition case := (bool * string * list pkg_import * list op * obs)%type.
+Definition case := (bool * string * list (pkg_import * obs) * list op)%type.
 
 Fixpoint bad_from (i : nat) (l : list case) : list nat :=
   match l with
   | [] => []
-  | (fms, n, p, ops, o) :: r =>
-    if Nat.eqb (check_case_any fms n p ops o) 0 then bad_from (S i) r else i :: bad_from (S i) r
+  | (fms, n, alts, ops) :: r =>
+    if Nat.eqb (check_case_any fms n alts ops) 0 then bad_from (S i) r else i :: bad_from (S i) r
   end.
 
 (* indices of disagreeing cases, and for those the differing clause *)
 Definition bad_indices (l : list case) : list nat := bad_from 0 l.
 Definition bad_clauses (l : list case) : list nat :=
-  filter (fun c => negb (Nat.eqb c 0)) (map (fun '(fms, n, p, ops, o) => check_case_any fms n p ops o) l).
+  filter (fun c => negb (Nat.eqb c 0)) (map (fun '(fms, n, alts, ops) => check_case_any fms n alts ops) l).
